@@ -30,7 +30,7 @@ pub fn run(args: &Args, r: &mut Report) {
         "c11-request-wakes-waiting-machine",
         "c11-scheduled-operation-survives-handle-drop",
     ]);
-    let n = args.budget(8_000, 300_000);
+    let n = args.budget(40_000, 400_000);
     for i in 0..n {
         if args.skip(i) {
             continue;
